@@ -37,11 +37,10 @@ def readers_of(summ, gate):
 
 
 def run(tier, seed):
-    ck = Check('C09', tier, seed, level='other')
-    ck.cov['explanation'] = ('Partly proof, partly exploration: the solver half (an unimplemented demanded line prevents success) is the C01 theorem; '
-                             'per gate, the kernel evaluates the regenerated reading lines and certifies the gates whose own form has a REQUIRED line that '
-                             'consults the gate first and answers not-implemented (this holds on every store); the remaining gates are '
-                             'decided by flipping them to yes on real-form scenarios that read them.')
+    ck = Check('C09', tier, seed)
+    ck.cov['explanation'] = ('The solver half (an unimplemented demanded line prevents success) is the C01 theorem; Gates.gate_sound proves that a line which '
+                             'consults a gate first and refuses yields not-implemented on every store; C09_every_reader_refuses_<y> covers the gates ALL of '
+                             'whose reading lines have that shape; the remaining gates are decided by flipping them to yes on real-form scenarios that read them.')
     rng = random.Random(seed + 9)
     ck.rule = ('case = (year, gate input, real-form scenario that reads it) with the gate flipped to yes, plus numeric-gate scenarios; '
                'obligation = (year, gate, reading line) classified in the kernel; non-trivial = scenario whose baseline (gate = no) solves')
@@ -107,6 +106,83 @@ def run(tier, seed):
         ok, out = res2[f]
         ck.harvest_assumptions(out)
         ck.oblige('theorem:C09_immediate_gates_%d (%d gate/line pairs)' % (y, n), ok, out[-300:] if not ok else '')
+    # ---- every reader refuses: gates ALL of whose reading lines consult the gate first and answer not_implemented (Gates.gate_sound: every store)
+    HEAD2 = ('From Coq Require Import ZArith QArith List String Bool Lia.\nFrom HV Require Import Forms FormsCheck Balance Gates.\n'
+             'From Gen Require Import Forms%d.\nImport ListNotations.\nOpen Scope string_scope.\n')
+    fz_path = os.path.join(common.ROOT, 'oracles', 'c09_static_gates.json')
+    frozen_static = json.load(open(fz_path))['static'] if os.path.exists(fz_path) else {}
+    static_now, lost_static = {}, []
+    sfiles = []
+    for y in summ:
+        srows, smeta = [], []
+        for g in gates_by_year[y]:
+            gform, gname = g['input'].split('.')
+            for (fn, ln) in readers_of(summ[y], g['input']):
+                lit = gname if fn == gform else g['input']
+                srows.append('(%s, %s, %s)' % (gen_forms.cstr(fn), gen_forms.cstr(ln), gen_forms.cstr(lit)))
+                smeta.append((g['input'], fn, ln, lit))
+        txt = [HEAD2 % y, 'Definition srows : list (string * string * string) := %s.' % gen_forms.clist(srows),
+               'Goal True. idtac "@@SHAPES". Abort.',
+               'Eval vm_compute in map (fun r => match line_of cat (fst (fst r)) (snd (fst r)) with Some ln => gate_shape (snd r) (l_body ln) | None => 0%nat end) srows.']
+        sfiles.append((y, smeta, ck.write_gen('C09_shapes_%d.v' % y, '\n'.join(txt) + '\n')))
+    res_s = ck.coqc_many([f for _, _, f in sfiles], timeout=600)
+    tfiles = []
+    for y, smeta, f in sfiles:
+        ok, out = res_s[f]
+        if not ok:
+            ck.oblige('gate-shapes:%d' % y, False, out[-300:])
+            continue
+        codes = [int(x) for x in re.findall(r'\d+', out.split('@@SHAPES', 1)[1].split(': list')[0].replace('%nat', ''))]
+        by_gate = {}
+        for (g, fn, ln, lit), c in zip(smeta, codes):
+            by_gate.setdefault(g, []).append((fn, ln, lit, c))
+        full = sorted(g for g, l in by_gate.items() if all(c != 0 for (_, _, _, c) in l))
+        static_now[y] = set(full)
+        for g in sorted(frozen_static.get(str(y), [])):
+            if g not in full and any(x['input'] == g for x in gates_by_year[y]):
+                lost_static.append((y, g, [(fn, ln) for (fn, ln, lit, c) in by_gate.get(g, []) if c == 0]))
+        ck.cov.setdefault('gate_classes', {}).setdefault(str(y), {})['every reading line refuses on every store (theorem C09_every_reader_refuses)'] = full
+        rows = ['(%s, %s, %s)' % (gen_forms.cstr(fn), gen_forms.cstr(ln), gen_forms.cstr(lit)) for g in full for (fn, ln, lit, c) in by_gate[g]]
+        txt = [HEAD2 % y, 'Definition rows : list (string * string * string) := %s.' % gen_forms.clist(rows),
+               'Definition shaped (r:string * string * string) : bool :=\n  match line_of cat (fst (fst r)) (snd (fst r)) with Some ln => negb (gate_shape (snd r) (l_body ln) =? 0)%nat | None => false end.',
+               'Lemma rows_shaped : forallb shaped rows = true.\nProof. vm_compute. reflexivity. Qed.',
+               '(* whichever line consults such a gate, on whatever store: with the gate affirmative its value is "not implemented" - and by C01 the return is then not reported solved *)',
+               'Theorem C09_every_reader_refuses_%d : forall f l g ln, In (f, l, g) rows -> line_of cat f l = Some ln ->\n'
+               '  forall (c:ctx) fuel, slookup (qualify c g) (x_inps c) = Some (PBool true) -> (8 <= fuel)%%nat -> line_value c fuel ln = RUnimpl.' % y,
+               'Proof.\n  intros f l g ln Hin Hl c fuel Hg Hf.\n  pose proof (proj1 (forallb_forall shaped rows) rows_shaped _ Hin) as S. unfold shaped in S. cbn [fst snd] in S. rewrite Hl in S.\n'
+               '  apply (gate_sound c ln g fuel); [|exact Hg|exact Hf]. intros E. rewrite E in S. discriminate.\nQed.',
+               'Goal True. idtac "@@PA C09_every_reader_refuses_%d". Abort.' % y, 'Print Assumptions C09_every_reader_refuses_%d.' % y]
+        tfiles.append((y, len(full), len(rows), ck.write_gen('C09_refuses_%d.v' % y, '\n'.join(txt) + '\n')))
+    res_t = ck.coqc_many([f for _, _, _, f in tfiles], timeout=600)
+    for y, ng, nr, f in tfiles:
+        ok, out = res_t[f]
+        ck.harvest_assumptions(out)
+        ck.oblige('theorem:C09_every_reader_refuses_%d (%d gates, %d reading lines)' % (y, ng, nr), ok and ng > 0, out[-300:] if not ok else '')
+    if os.environ.get('C09_FREEZE'):
+        json.dump({'comment': 'gates all of whose reading lines refuse on every store (theorem C09_every_reader_refuses) on the baseline tree; written by C09_FREEZE=1 ./check C09',
+                   'static': {str(y): sorted(v) for y, v in static_now.items()}}, open(fz_path, 'w'), indent=1)
+    for (y, g, bad_lines) in lost_static:
+        ck.oblige('gate-theorem:%d:%s' % (y, g), False, 'reading lines that no longer refuse first: %s' % bad_lines[:3])
+        # failing input: a real return that consults the gate, answers yes, and is still reported solved
+        found = None
+        for (year, forms, sseed, prof) in scenarios.scenario_stream(random.Random(seed + 99), 40):
+            if year != y:
+                continue
+            base = scenarios.run_scenario(H, year, forms, sseed, prof)
+            if base['exc'] is not None or not base['ok']:
+                continue
+            names = [nm for (nm, a, nb) in base['policy'].asked if nm.split('.')[0].split(':')[0] + '.' + nm.split('.')[1] == g and a == 'no']
+            for nm in names[:1]:
+                r = scenarios.run_scenario(H, year, forms, sseed, prof, overrides={nm: 'yes'})
+                if r['exc'] is None and r['ok']:
+                    found = {'kind': 'failing-input', 'year': year, 'forms': forms, 'seed': sseed, 'profile': prof, 'override': {nm: 'yes'}, 'gate': g}
+            if found:
+                break
+        if found:
+            ck.violation('C09:%d:%s' % (y, g), 'ty%d: answering yes to %s (which the solver consulted) still gives a solved return' % (y, g), found, found=True)
+        else:
+            ck.violation('C09:%d:%s' % (y, g), 'ty%d: gate %s: a line that reads it no longer answers not-implemented first (%s); theorem C09_every_reader_refuses_%d no longer covers it' % (
+                y, g, bad_lines[:2], y), {'kind': 'proof-or-correspondence', 'theorem_or_correspondence': 'C09_every_reader_refuses_%d for %s' % (y, g)}, found=False)
     # ---- flipped-gate runs on the real solver
     n_sc = 60 if tier == 'quick' else 600
     exercised = {y: {} for y in summ}
